@@ -26,7 +26,11 @@ RawEls == {"iframe", "noembed", "noframes", "noscript", "plaintext", "script", "
 UnsafeNames == {"script", "style"}
 Blocked(p, n) == Norm(n) \in UnsafeNames /\ ~p.unsafe
 
-St0 == [skip |-> FALSE, cnt |-> 0, stack |-> <<>>, mrst |-> ""]
+\* mrst: the (normalised) name of the most recent start or self-closing tag, cleared by its end tag;
+\* kept: whether that tag was written.  The hooks log skip, cnt, stack and mrst (Logged); kept is
+\* inferred by the specification.
+St0 == [skip |-> FALSE, cnt |-> 0, stack |-> <<>>, mrst |-> "", kept |-> FALSE]
+Logged(st) == [skip |-> st.skip, cnt |-> st.cnt, stack |-> st.stack, mrst |-> st.mrst]
 
 Tok(t, n, a, d) == [t |-> t, n |-> n, a |-> a, d |-> d]
 Space == Tok("space", "", <<>>, "")
@@ -73,7 +77,10 @@ Branch(p, st, tok, after) ==
          ELSE IF st.skip THEN "SelfHidden" ELSE "SelfKept"
     [] tok.t = "text" ->
          IF st.skip THEN "TextSkipped"
-         ELSE IF st.mrst \in UnsafeNames THEN (IF p.unsafe THEN "TextRaw" ELSE "TextUnsafeBody")
+         ELSE IF st.mrst \in UnsafeNames
+              THEN (IF ~p.unsafe THEN "TextUnsafeBody"           \* never written
+                    ELSE IF st.kept THEN "TextRaw"                \* body of a script/style element that is in the output
+                    ELSE "TextEscaped")                           \* its tag was removed: ordinary text
          ELSE "TextEscaped"
 
 Branches == {"Doctype", "CommentKept", "CommentDropped",
@@ -88,7 +95,8 @@ StepB(p, st, tok, b) ==
   LET m == CASE tok.t \in {"start", "self"} -> Norm(tok.n)
              [] tok.t = "end" -> IF st.mrst = Norm(tok.n) THEN "" ELSE st.mrst
              [] OTHER -> st.mrst
-      s1 == [st EXCEPT !.mrst = m]
+      s1 == [st EXCEPT !.mrst = m,
+                       !.kept = IF tok.t \in {"start", "self"} THEN b \in {"StartKept", "SelfKept"} ELSE @]
       s2 == IF tok.t = "end" /\ b # "EndBlocked" THEN [s1 EXCEPT !.stack = StackAtEnd(st, tok.n)] ELSE s1
   IN  CASE b = "StartUnknownSkip" -> [s2 EXCEPT !.skip = TRUE, !.cnt = @ + 1]
         [] b = "StartBareDropped" -> [s2 EXCEPT !.stack = Append(@, tok.n)]
